@@ -856,7 +856,7 @@ def rule_u1(ctx: Ctx) -> None:
                         if any(isinstance(x, (ast.Continue, ast.Break)) for x in ast.walk(b)) and not removed:
                             break
                     if not removed:
-                        ctx.violation("C17-U1", f, st, f"a candidate basis all of whose patterns are avoided by the bad permutation is not removed from `{mon_var}` (on every path): it can be returned although a tested bad permutation avoids it")
+                        ctx.violation("C17-U1", f, st, f"a candidate basis all of whose patterns are avoided by the bad permutation is not removed from `{mon_var}` (on every path): it can be returned although a tested bad permutation avoids it", robust=True)
                         return
                     ge = st.test.args[0]
                     if not (isinstance(ge, ast.GeneratorExp) and unparse(ge.elt) == f"{avoid_tbl}[{unparse(ge.generators[0].target)}]"):
@@ -1034,7 +1034,7 @@ def rule_m1(ctx: Ctx) -> None:
             if (descending and later) or (not descending and earlier):
                 ctx.ok("C17-M1", fi.where, f"minimal-elements filter: candidates sorted by {'decreasing' if descending else 'increasing'} size, each compared with the {'later (smaller)' if descending else 'earlier (smaller) kept'} ones `{pool_t}`", st, fi)
             elif later or earlier:
-                ctx.violation("C17-M1", fi, st, f"candidates are sorted by {'decreasing' if descending else 'increasing'} size but each one is compared only with `{pool_t}`, which holds the {'larger' if descending else 'later, larger'} ones: a proper subset is never among them, so non-minimal shadings are kept (redundant cells in the learned patterns)")
+                ctx.violation("C17-M1", fi, st, f"candidates are sorted by {'decreasing' if descending else 'increasing'} size but each one is compared only with `{pool_t}`, which holds the {'larger' if descending else 'later, larger'} ones: a proper subset is never among them, so non-minimal shadings are kept (redundant cells in the learned patterns)", robust=True)
             elif pool_t == src:
                 ctx.violation("C17-M1", fi, st, f"each candidate is compared with the whole list `{src}`, itself included: every shading is dropped")
             else:
